@@ -166,7 +166,7 @@ def _summarise(interp, st, frame, seq):
     inner_assigns = []
     dyn = set(bound_names) | (flat_targets(flat) if flat else set()) | {nm for a in pre_assigns for nm in _assigned(a)}
     if pre_assigns or (len(rest) == 1 and isinstance(rest[0], ast.If) and not rest[0].orelse and
-                       any(not (isinstance(x, ast.Expr)) for x in rest[0].body)) or any(isinstance(x, (ast.If, ast.Assign)) for x in rest[1:]):
+                       any(isinstance(x, (ast.If, ast.Assign)) for x in rest[0].body)) or any(isinstance(x, (ast.If, ast.Assign)) for x in rest[1:]):
         # S4: temporaries and loop-independent inner branches
         if len(rest) == 1 and isinstance(rest[0], ast.If) and not rest[0].orelse and (_names(rest[0].test) & dyn):
             cond = rest[0].test
